@@ -487,5 +487,226 @@ func c11GenConcurrent(o *hx.Out, r *hx.Rng, thorough bool) error {
 func c11GenHist(o *hx.Out, r *hx.Rng, tier string) error {
 	thorough := tier == "thorough"
 	c11GenHistories(o, r.Split(), thorough)
-	return c11GenConcurrent(o, r.Split(), thorough)
+	if err := c11GenConcurrent(o, r.Split(), thorough); err != nil {
+		return err
+	}
+	return c11GenSizeHistories(o, r.Split(), thorough)
+}
+
+// ---- kind 4 again: call histories of ONE FRESH PROCESS mixing sample sizes ----
+//
+// Whatever the package keeps between calls (tables of binomials or factorials
+// grown on demand, memo tables, buffers) is empty when a process starts and is
+// then shaped by the sizes of the calls made so far. Every history below is run
+// in its own process (cmd/c11race, plain binary, one goroutine, one pass: the
+// jobs in the order given) so that its first call really is a first call; the
+// calls take their sizes from the classes
+//
+//	S: exact test whose binomials C(n, k) all have n <= 20 (the integer path of mathChoose)
+//	A: n up to 21..31   (tied 11+11, 10+12, 15+16, ...; untied likewise)
+//	B: n up to 32       (tied 16+16, 15+17, 12+20, ...)
+//	C: n up to 33..64   (tied up to 25+25, untied up to 32+32)
+//	D: n up to 65..100  (untied, both sizes <= 50)
+//
+// in every order of A, B, C and in random longer orders. The case is an ordinary
+// history (kind 4) over the concatenation of the samples (disjoint windows): every
+// result is judged against the exact tails of ITS OWN samples, as if it were the
+// first call of a process.
+
+type c11FreshInput struct {
+	Kind    string        `json:"kind"`
+	Process string        `json:"process"`
+	Classes string        `json:"size_classes"`
+	Jobs    []c11conc.Job `json:"jobs"`
+}
+
+// a sample pair of pooled size N for the exact test (tied: n1, n2 <= 25, at least one
+// tie and two distinct values; untied: n1, n2 <= 50)
+func c11SizedPair(r *hx.Rng, N int, tied bool) (x1, x2 []int64) {
+	lim := 50
+	if tied {
+		lim = 25
+	}
+	lo, hi := max(1, N-lim), min(lim, N-1)
+	n1 := r.Range(lo, hi)
+	if r.Chance(0.5) { // near-even split
+		n1 = min(hi, max(lo, N/2+r.Intn(3)-1))
+	}
+	n2 := N - n1
+	if !tied {
+		p := make([]int64, N)
+		for i := range p {
+			p[i] = int64(2*i) - 9
+		}
+		p = c11Shuffle(r, p)
+		return append([]int64(nil), p[:n1]...), append([]int64(nil), p[n1:]...)
+	}
+	k := r.Range(2, 5)
+	gen := func(n int, bias int) []int64 {
+		x := make([]int64, n)
+		for i := range x {
+			x[i] = int64(min(k-1, r.Intn(k)+bias*r.Intn(2))) * 3
+		}
+		return x
+	}
+	x1, x2 = gen(n1, 0), gen(n2, r.Intn(2))
+	x1[0], x2[0] = 0, 3
+	if n2 > 1 {
+		x2[1] = 0
+	} else if n1 > 1 {
+		x1[1] = 3
+	}
+	return x1, x2
+}
+
+func c11ClassPair(r *hx.Rng, class byte) (x1, x2 []int64) {
+	switch class {
+	case 'S':
+		return c11SizedPair(r, r.Range(4, 20), r.Chance(0.7))
+	case 'A': // the ends of the class (21, 22, 31) half of the time
+		switch r.Intn(6) {
+		case 0:
+			return c11SizedPair(r, 22, true)
+		case 1:
+			return c11SizedPair(r, 31, r.Chance(0.8))
+		case 2:
+			return c11SizedPair(r, 21, r.Chance(0.8))
+		}
+		return c11SizedPair(r, r.Range(21, 31), r.Chance(0.8))
+	case 'B':
+		return c11SizedPair(r, 32, r.Chance(0.85))
+	case 'C': // the ends (33, 64; 50 = the largest tied pooled size) half of the time
+		switch r.Intn(8) {
+		case 0, 1:
+			return c11SizedPair(r, 33, r.Chance(0.8))
+		case 2:
+			return c11SizedPair(r, 64, false)
+		case 3:
+			return c11SizedPair(r, 50, true)
+		case 4:
+			return c11SizedPair(r, r.Range(33, 64), false)
+		}
+		return c11SizedPair(r, r.Range(33, 50), true)
+	}
+	return c11SizedPair(r, r.Range(65, 100), false)
+}
+
+func c11SizeHistory(o *hx.Out, r *hx.Rng, exe, work string, id int, classes string) error {
+	untied, tied := st.ExactLimits()
+	var jobs []c11conc.Job
+	var series []int64
+	var wins []c11Win
+	for i := 0; i < len(classes); i++ {
+		x1, x2 := c11ClassPair(r, classes[i])
+		alt := c11AvoidFinding(x1, x2, []int{-1, 0, 1}[r.Intn(3)])
+		jobs = append(jobs, c11conc.Job{X1: x1, X2: x2, Alt: alt})
+		a := len(series)
+		series = append(series, x1...)
+		b := len(series)
+		series = append(series, x2...)
+		wins = append(wins, c11Win{[2]int{a, b}, [2]int{b, len(series)}, alt})
+	}
+	script := filepath.Join(work, fmt.Sprintf("c11fresh_%d.json", id))
+	js, _ := json.Marshal([]c11conc.Batch{{Jobs: jobs, Goroutines: 1, Rounds: 1}})
+	if err := os.WriteFile(script, js, 0o644); err != nil {
+		return err
+	}
+	res, _, ok := c11RunConc(exe, script, 4)
+	var ops, oracle []hx.Sx
+	for j, w := range wins {
+		out := c11conc.Outcome{Code: 3} // a process that died: a panic of every call
+		if ok && len(res.Distinct) == len(jobs) && len(res.Distinct[j]) == 1 {
+			out = res.Distinct[j][0]
+		}
+		regime, orc := c11RegimeOracle(jobs[j].X1, jobs[j].X2, w.Alt)
+		oracle = append(oracle, orc...)
+		var mut []hx.Sx
+		if ok && !res.Unchanged && j == len(wins)-1 {
+			// the process compares its inputs after all calls and reports one bit
+			mut = append(mut, hx.L(hx.I(0), hx.F64(math.NaN())))
+			o.Count("fresh-process:inputs-changed")
+		}
+		ops = append(ops, hx.L(hx.I(w.X1[0]), hx.I(w.X1[1]), hx.I(w.X2[0]), hx.I(w.X2[1]), hx.I(w.Alt),
+			c11OutcomeSx(out), hx.List(mut)))
+		o.Count("fresh-process-regime:" + regime)
+		o.Count(fmt.Sprintf("fresh-process-call:class=%c", classes[j]))
+		if c11HasTies(c11TieVector(jobs[j].X1, jobs[j].X2)) {
+			o.Count(fmt.Sprintf("fresh-process-call:tied,class=%c", classes[j]))
+		}
+	}
+	if !ok {
+		o.Count("fresh-process:died")
+	}
+	o.Count("hist:fresh-process-mixed-sizes")
+	o.Count("fresh-process-order:" + c11OrderClass(classes))
+	cs := hx.L(hx.I(4), c11ZList(series), hx.L(hx.I(untied), hx.I(tied)), hx.List(ops), hx.List(oracle))
+	in := c11FreshInput{"history", "fresh process per history (cmd/c11race, 1 goroutine, 1 pass, jobs in order)", classes, jobs}
+	o.Add(cs, in, fmt.Sprint("f", classes, jobs), true)
+	return nil
+}
+
+// the order in which the classes A (21..31), B (32), C (33..64) first occur
+func c11OrderClass(classes string) string {
+	first := ""
+	for i := 0; i < len(classes); i++ {
+		c := classes[i]
+		if (c == 'A' || c == 'B' || c == 'C') && !strings.ContainsRune(first, rune(c)) {
+			first += string(c)
+		}
+	}
+	if first == "" {
+		return "none-of-A-B-C"
+	}
+	return "first-occurrences=" + first
+}
+
+func c11GenSizeHistories(o *hx.Out, r *hx.Rng, thorough bool) error {
+	exe, err := c11BuildConc(false)
+	if err != nil {
+		return err
+	}
+	work := os.Getenv("VERIF_WORK")
+	if work == "" {
+		work = os.TempDir()
+	}
+	id := 0
+	run := func(classes string) error {
+		id++
+		return c11SizeHistory(o, r, exe, work, id, classes)
+	}
+	rounds := 2
+	nrand := 10
+	if thorough {
+		rounds, nrand = 12, 120
+	}
+	// every order of A, B, C; with a small first call; with the big untied class in between
+	for k := 0; k < rounds; k++ {
+		for _, p := range []string{"ABC", "ACB", "BAC", "BCA", "CAB", "CBA"} {
+			if err := run(p); err != nil {
+				return err
+			}
+		}
+		for _, p := range []string{"SABC", "AB", "AC", "BA", "BC", "CA", "CB", "ADBC", "DCBA", "ABAC", "CBCA"} {
+			if err := run(p); err != nil {
+				return err
+			}
+		}
+	}
+	// single calls (the reference: really the first call) and random longer orders
+	for _, p := range []string{"A", "B", "C", "D"} {
+		if err := run(p); err != nil {
+			return err
+		}
+	}
+	for i := 0; i < nrand; i++ {
+		n := r.Range(3, 6)
+		b := make([]byte, n)
+		for j := range b {
+			b[j] = "SAABBCCD"[r.Intn(8)]
+		}
+		if err := run(string(b)); err != nil {
+			return err
+		}
+	}
+	return nil
 }
